@@ -26,6 +26,7 @@ func zzRunSeq(r *sim.Run, focus string) {
 	e := zzNewEnv(r)
 	defer e.shutdown()
 	x := zzNewExec(e, focus)
+	x.faultyHistory = r.Config == "faults"
 	prog := zzGenProgram(r.T, focus, 36)
 	x.openAll()
 	x.run(prog, -1, nil)
